@@ -20,7 +20,7 @@ RULE = ("(1) *_with_counters files and (2) critical-path overlays written from O
         "on file lists (multi-digit, unordered ranks; written by write_trace, json.dump pretty / default / compact; metadata before "
         "or after traceEvents via update_trace_rank on 1..600-event traces). Output files are sniffed for gzip magic. Non-trivial: "
         ">= 2 files written from one object, or >= 3 ranks discovered. Distinct = hash of the case.")
-ASSUMPTIONS = ["analysed events carry an args object (Kineto always writes one)", "no event args contain a '\"rank\": N' pair ahead of the metadata",
+ASSUMPTIONS = ["analysed events carry an args object (Kineto always writes one)", "an event argument literally named rank ahead of the metadata misleads rank discovery: recorded finding K5, reported as KNOWN-FINDING",
                "with only_show_critical_events only markers and flows are judged (events are dropped by design)"]
 FLOAT_KEYS = ["files"]          # fractional-time-unit workload class (hv/shard.py)
 PLAN = {"quick": {"shards": 16, "cases": 384, "timeout": 900}, "thorough": {"shards": 16, "cases": 3000, "timeout": 3400}}
@@ -37,6 +37,41 @@ def read_any(path: str) -> Dict[str, Any]:
         head = fh.read(2)
     with (gzip.open(path, "rb") if head == b"\x1f\x8b" else open(path, "rb")) as fh:
         return json.loads(fh.read())
+
+
+def _rank_arg_first(path: str) -> bool:
+    """True when the first text of the form "rank": <digits> in the file lies inside the event list, ahead of (or without) the
+    distributedInfo block that records the file's rank."""
+    import re
+    with (gzip.open(path, "rt", encoding="utf-8") if path.endswith(".gz") else open(path, "r", encoding="utf-8")) as fh:
+        text = fh.read()
+    m = re.search(r'"rank":\s*\d+', text)
+    if m is None:
+        return False
+    ev = text.find('"traceEvents"')
+    di = text.find('"distributedInfo"')
+    try:
+        has_meta_rank = "rank" in (json.loads(text).get("distributedInfo") or {})
+    except ValueError:
+        return False
+    return ev != -1 and ev < m.start() and (not has_meta_rank or m.start() < di)
+
+
+def _misread_rank(path: str) -> Optional[int]:
+    """The number rank discovery reads when it is an event argument ahead of the metadata (else None)."""
+    import re
+    if not _rank_arg_first(path):
+        return None
+    with (gzip.open(path, "rt", encoding="utf-8") if path.endswith(".gz") else open(path, "r", encoding="utf-8")) as fh:
+        return int(re.search(r'"rank":\s*(\d+)', fh.read()).group(1))
+
+
+def _k5_explains(wrong_paths, exp_map, paths) -> bool:  # noqa: ANN001
+    """Every wrongly mapped file either has its rank read from an event argument, or was displaced from its rank by such a file."""
+    misread = {q: _misread_rank(q) for q in paths}
+    taken = {v for v in misread.values() if v is not None}
+    rank_of = {q: r for r, q in exp_map.items()}
+    return bool(wrong_paths) and all(misread.get(q) is not None or rank_of.get(q) in taken for q in wrong_paths)
 
 
 def read_as_named(path: str, res, tag: str) -> Optional[Dict[str, Any]]:  # noqa: ANN001
@@ -70,6 +105,11 @@ def gen_case(rnd, tier: str, i: Any) -> Dict[str, Any]:
             how = rnd.choice(["write_trace", "write_trace", "dump_default", "dump_indent", "dump_compact", "update_rank_after", "update_rank_after"])
             if how == "update_rank_after" and rnd.random() < 0.6 and len(tr["traceEvents"]) < 2000:
                 tr["traceEvents"] = tr["traceEvents"] * 30                           # metadata lands far behind the events
+            if rnd.random() < 0.15:
+                # an event argument that happens to be called "rank" (a collective's metadata): it is not the file's rank
+                cands = [e for e in tr["traceEvents"][:40] if isinstance(e, dict) and isinstance(e.get("args"), dict)]
+                if cands:
+                    rnd.choice(cands)["args"]["rank"] = rnd.choice([0, 1, 5, 4093, r + 1])
             files.append({"rank": r, "trace": tr, "gz": rnd.random() < 0.5, "how": how,
                           # what the file said about its rank before update_trace_rank: nothing, an empty object (single-process
                           # trace), other distributed fields only, or another rank
@@ -349,9 +389,12 @@ def _files_case(case, ctx, res) -> None:  # noqa: ANN001
             okflag, m = out
             if not okflag or {int(k): v for k, v in m.items()} != exp_map:
                 hows = {os.path.basename(q): None for q in paths}
+                wrong_paths = [v for k, v in exp_map.items() if m.get(k) != v]
                 res.bad("rank-discovery", f"create_rank_to_trace_dict -> ok={okflag} {dict((k, os.path.basename(v)) for k, v in m.items())}, expected "
                         f"{dict((k, os.path.basename(v)) for k, v in exp_map.items())}", files=list(hows),
-                        wrong=[os.path.basename(v) for k, v in exp_map.items() if m.get(k) != v])
+                        wrong=[os.path.basename(v) for v in wrong_paths],
+                        # attribution data for known finding K5: in every wrongly mapped file the first rank text is an event argument
+                        wrong_files_have_a_rank_argument_ahead_of_the_metadata=_k5_explains(wrong_paths, exp_map, paths))
         res.nontrivial = len(exp_map) >= 3
         res.trivial_reason = "fewer than 3 ranks"
         res.sample = {"files": [(f["rank"], f["how"], "gz" if f["gz"] else "json", len(f["trace"]["traceEvents"])) for f in case["files"]], "new_rank": case["new_rank"]}
